@@ -12,6 +12,10 @@ CLAIMS = {
   text="Coq theorems (Props/C06.v): for every dialect (delimiter <> quote, neither CR/LF) and all rows of CR-free cells of any size, the modelled csv.writer -> open() -> csv.reader round trip is the identity (C06_csv_roundtrip, induction over rows/cells/characters); composed with the run loop, [*][yes()] returns exactly the non-blank records cell for cell (C06_lines) and for EVERY matcher/scan/mode the returned lines are a sub-sequence of the file's records (C06_delivered_as_is); headers are the cleaned first non-blank record (C06_headers, C06_clean_header); #name and #index address the same cell and short rows read as absent (C06_name_index, C06_short_row). Tie: each run compares real csv.writer bytes, real CsvPath(delimiter,quotechar).collect() lines, CsvPath.headers and pushed #index/#name values with the model and with the property, the comparison being computed by the Coq kernel.",
   note="Trusted: Coq kernel; Csv/CsvModel.v as a model of CPython's _csv and universal newlines (tied by correspondence on every generated file); Data/DataModel.v; harness. No axioms.",
   technique="Coq proof (csv round trip + run loop) over hand-written Gallina model + kernel-evaluated differential correspondence"),
+ "C15": dict(
+  text="Coq theorems (Props/C15.v): the two character state machines of metadata_parser.py are modelled exactly; for comments of any length without ~ [ ] $ the csvpath text comes out untouched and the comment goes to the field parser (C15_extract), and any list of rendered 'key: value' fields is recovered (C15_fields, induction over the field list with the parser state as invariant); on the run-loop model, for EVERY matcher: return-mode no-matches flips the returned flag exactly on the offered records and leaves the run state equal (C15_complement), collected/unmatched partition the records read (C15_partition), no-run reads nothing (C15_norun), no-default removes only the stdout printer (C15_print_mode). Tie: real MetadataParser methods vs the model on generated comments (Coq-evaluated), recorded-matcher run-loop correspondence on every real run, and the relations themselves checked between 7 real runs of each generated csvpath (stdout captured at fd level).",
+  note="Trusted: Coq kernel; Meta/MetaModel.v (str.isalnum modelled on the generator's alphabet only: ASCII + 3 listed code points) and Run/RunLoop.v as far as the correspondence shows them equal to the code; harness. No axioms.",
+  technique="Coq proof over exact state-machine model + run-loop model; kernel-evaluated correspondence; relational differential runs"),
  "C07": dict(
   text="Coq theorems (Props/C07.v) over the run-loop model for EVERY matcher: the entry points collect()/next()/fast_forward() (and collect(nexts=k) vs k lines of next()) yield the same lines and leave identical state, differing only in the unmatched list (C07_entry_points_agree, C07_lines); returned/unmatched partition the records read (C07_partition). Tie: the real matcher's per-line answers are recorded and replayed as the model's matcher, and everything the loop decides (returned/unmatched lines, scan_count, match_count, stopped) is compared by the Coq kernel on every generated run; the real entry points are also compared with each other.",
   note="Trusted: Coq kernel; Run/RunLoop.v as far as the recorded-matcher correspondence shows it equal to CsvPath.next/_consider_line/collect; harness. The statement 'collect(nexts=n) performs no side effect of a later line' is covered by the theorem for equal budgets plus the real comparison against n lines taken from next(). No axioms.",
